@@ -154,12 +154,28 @@ Proof.
   - vm_compute. reflexivity.
 Qed.
 
-(* DESIGN.md section 7 row 20: embedded JSON surrounded by white space parses (json.Unmarshal skips
-   the white space) but is not looked into, because isLikelyJSON tests the first and last byte *)
+(* DESIGN.md section 7 row 20 (fixed by fixes/C19-json-embedded-ws.diff): embedded JSON surrounded by
+   white space parses (json.Unmarshal skips the white space); the code as found did not look into it,
+   because isLikelyJSON tested the first and last byte of the untrimmed string; the fixed code does *)
 Lemma json_embedded_ws_refuted :
-  exists s e u, is_likely_json s = false /\ In u (all_strings (JStr s (Some e))) /\
-                ~ In u (find_urls (tv [u]) (JStr s (Some e))).
+  exists s e u, is_likely_json_orig s = false /\ In u (all_strings (JStr s (Some e))) /\
+                ~ In u (find_urls_orig (tv [u]) (JStr s (Some e))) /\
+                In u (find_urls (tv [u]) (JStr s (Some e))).
 Proof.
   exists (bs " [""https://b.example/page""] "), (JArr [JStr ex_u2 None]), ex_u2.
-  split; [reflexivity|]. split; [right; left; reflexivity|]. vm_compute. tauto.
+  split; [reflexivity|]. split; [right; left; reflexivity|]. vm_compute. split; [tauto|left; reflexivity].
 Qed.
+
+(* isLikelyJSON does not see ASCII white space around the text *)
+Theorem likely_json_padded_lemma c0 mid c1 ws1 ws2 :
+  plain_byte c0 = true -> plain_byte c1 = true ->
+  forallb ascii_ws ws1 = true -> forallb ascii_ws ws2 = true ->
+  is_likely_json (ws1 ++ c0 :: mid ++ c1 :: ws2) = is_likely_json_orig (c0 :: mid ++ [c1]).
+Proof.
+  intros. unfold is_likely_json. rewrite trim_space_padded_lemma by assumption. reflexivity.
+Qed.
+
+Example likely_json_padded_nonvacuous :
+  is_likely_json ([" "%char; ascii_of_N 10] ++ bs "{""u"":""https://b.example/x.css""}" ++ [ascii_of_N 9]) = true
+  /\ is_likely_json_orig ([" "%char; ascii_of_N 10] ++ bs "{""u"":""https://b.example/x.css""}" ++ [ascii_of_N 9]) = false.
+Proof. vm_compute. split; reflexivity. Qed.
